@@ -143,6 +143,9 @@ func checkC15(c *Ctx) {
 		case "text", "bytes":
 			// length cells: 0 (text only), 1..127, 128..16383, 16384..2^21-1
 			cells := [][2]int64{{1, 127}, {128, 16383}, {16384, 1<<21 - 1}}
+			if c.Tier == "thorough" {
+				cells = append(cells, [2]int64{1 << 21, 1<<28 - 1}) // 4-byte length field
+			}
 			if ms.kind == "text" {
 				cells = append([][2]int64{{0, 0}}, cells...)
 			}
